@@ -7,15 +7,17 @@ AllFields == {"bal", "code", "chash", "s1", "s2", "sui", "ev", "ax", "asup", "af
               "rs", "rac", "rai", "req"}
 Dflt(f) == CASE f \in {"bal", "s1", "s2", "ev", "asup", "eq", "votes"} -> 0
              [] f \in {"sui", "ax"} -> FALSE
-             [] f \in {"rs", "rac", "rai", "req"} -> "B"
+             [] f \in {"rs", "rac", "rai", "req"} -> "Z"       \* no entries: zero root
              [] OTHER -> ""
 Empty(F) == [f \in F |-> Dflt(f)]
 RECURSIVE With(_, _)
 With(r, ps) == IF ps = <<>> THEN r ELSE With(Upd(r, Head(ps)[1], Head(ps)[2]), Tail(ps))
 \* a committed parent state with something in every attribute
-FullC(F) == With(Empty(F), << <<"bal", 1>>, <<"code", "c1">>, <<"chash", "c1">>, <<"s1", 1>>, <<"aid", "m1">>, <<"eq", 1>> >>)
+FullC(F) == With(Empty(F), << <<"bal", 1>>, <<"code", "c1">>, <<"chash", "c1">>, <<"s1", 1>>, <<"aid", "m1">>, <<"eq", 1>>,
+                              <<"rs", "B">>, <<"rai", "B">>, <<"req", "B">> >>)
 FullU(F) == With(Empty(F), << <<"bal", 1>>, <<"ax", TRUE>>, <<"asup", 1>>, <<"afr", "true">>, <<"aid", "m1">>, <<"eq", 1>>,
-                              <<"p1", "true">>, <<"p2", "h1">>, <<"votes", 1>>, <<"vf", "c">>, <<"sig", "g1">> >>)
+                              <<"p1", "true">>, <<"p2", "h1">>, <<"votes", 1>>, <<"vf", "c">>, <<"sig", "g1">>,
+                              <<"rac", "B">>, <<"rai", "B">>, <<"req", "B">> >>)
 KC == {"bal", "s1", "s2", "code", "sui", "ev", "aid", "eq"}
 KU == {"bal", "ax", "asup", "afr", "aid", "eq", "cand", "p1", "p2", "votes", "vf", "sig"}
 
